@@ -39,6 +39,12 @@ INFO = {
     "C16-2": ("override-formatted line of one sink leaks to the following sinks", "a sink with an override pattern followed by a sink without one on the same logger"),
     "C18-2": ("backtrace flush decision uses macro_metadata->log_level() instead of the event's level", "a dynamic-level statement below the flush level on a logger with stored backtrace statements"),
     "C20-2": ("context cache rebuild skips contexts that are already invalid and empty", "thread A exits and is fully drained in a non-idle pass, a new thread registers before the next idle pass: A is never in the cache again and never reclaimed"),
+    "C04-2": ("decode_and_store_args() clears and fills the shared argument store only when the statement has arguments", "a zero-argument statement decoded right after a statement with arguments: literal with a byte the printable check rejects (escaped although no string argument), or a placeholder without argument (previous statement's argument printed)"),
+    "C07-2": ("UnboundedSPSCQueue::empty() no longer looks at the successor buffer", "producer has switched to a new buffer (growth with exact fill, or shrink), the old one is drained, then stop / exit / thread clean-up decide on empty() alone"),
+    "C13-2": ("backward timestamp rebuilds the cache at the earlier instant but keeps the old next-recalculation point", "instant at/after a recalculation point B, then one before B, then one at/after B again (noon, midnight, DST switch)"),
+    "C14-2": ("backup-limit step moved before the rename loop; an indexed oldest entry is only forgotten, not removed", "Date/DateAndTime naming, finite max_backup_files >= 2 with overwrite, two rotated files sharing a suffix, then the suffix changes and that series becomes the oldest"),
+    "C15-2": ("_rotate_files() re-arms the time-rotation point (also after a size rotation)", "sink with size AND time rotation: a size rotation inside a period, then a statement stamped in [scheduled point, size-rotation time + period) that still fits"),
+    "C19-2": ("named-args clean-up of the reused transit slot moved behind the dispatch (skipped for backtrace statements and throwing sinks); populate uses emplace_back", "a named-argument LOG_BACKTRACE (or a named statement whose sink throws), then the statement that reuses the same transit slot"),
     "C17-2": ("SinkManager::_insert_sink uses upper_bound", "a sink expires without a logger removal, the same sink name is created again and looked up before any logger is removed"),
 }
 for name, (change, needs) in INFO.items():
